@@ -513,6 +513,99 @@ def _with_worst_case_sigs(tx):
     return Tx(tx.version, tx.lock_time, vin, tx.vout, check_validity=False)
 
 
+# ---- raw-key templates: every signable shape × key compression (the library's xpub signer only derives compressed keys)
+RAW_SHAPES = ["pkh", "sh(pkh)", "wsh(pkh)", "sh(wsh(pkh))", "pk", "sh(pk)", "wsh(pk)", "sh(wsh(pk))", "multi23",
+              "sh(multi23)", "wsh(multi23)", "sh(wsh(multi12))", "multi11", "wsh(multi33)", "wpkh", "sh(wpkh)"]
+
+
+def _raw_prv(i):
+    return 0x1111 + 7919 * i
+
+
+def _raw_pub(i, comp):
+    from btclib.curves import mult
+    from btclib.curves.sec_point import bytes_from_point
+    return bytes_from_point(mult(_raw_prv(i)), compressed=comp)
+
+
+class _RawKeys:
+    """a `KeyManager` holding the private key of every `_raw_pub(i, ·)` for i < 64, in both SEC spellings"""
+    _table = {}
+
+    def __init__(self):
+        if not self._table:
+            for i in range(64):
+                for c in (True, False):
+                    self._table[_raw_pub(i, c)] = _raw_prv(i)
+
+    def sign_ecdsa(self, pub_key, origin, msg_hash):
+        from btclib.ecc import dsa
+        q = self._table.get(bytes(pub_key))
+        return None if q is None else dsa.sign_(msg_hash, q).serialize()
+
+    def sign_schnorr(self, *a):
+        return None
+
+    def sign_schnorr_script_path(self, *a):
+        return None
+
+
+def _raw_input(shape, comp, k0):
+    """(script_pub_key, redeem_script, witness_script, keys of the script) for keys k0, k0+1, k0+2"""
+    from btclib.script import serialize as ser
+    k = [_raw_pub((k0 + j) % 64, comp) for j in range(3)]
+    ms = lambda m, ks: ser([f"OP_{m}", *ks, f"OP_{len(ks)}", "OP_CHECKMULTISIG"])  # noqa: E731
+    wsh = lambda sc: ScriptPubKey.p2wsh(sc).script  # noqa: E731
+    sh = lambda sc: ScriptPubKey.p2sh(sc).script  # noqa: E731
+    pkh, pk = ScriptPubKey.p2pkh(k[0]).script, ScriptPubKey.p2pk(k[0]).script
+    if shape in ("wpkh", "sh(wpkh)"):
+        wp = ScriptPubKey.p2wpkh(_raw_pub(k0 % 64, True)).script      # BIP143: compressed only (btclib refuses the other)
+        return {"wpkh": (wp, b"", b"", [_raw_pub(k0 % 64, True)]), "sh(wpkh)": (sh(wp), wp, b"", [_raw_pub(k0 % 64, True)])}[shape]
+    table = {
+        "pkh": (pkh, b"", b"", k[:1]), "sh(pkh)": (sh(pkh), pkh, b"", k[:1]), "wsh(pkh)": (wsh(pkh), b"", pkh, k[:1]),
+        "sh(wsh(pkh))": (sh(wsh(pkh)), wsh(pkh), pkh, k[:1]),
+        "pk": (pk, b"", b"", k[:1]), "sh(pk)": (sh(pk), pk, b"", k[:1]), "wsh(pk)": (wsh(pk), b"", pk, k[:1]),
+        "sh(wsh(pk))": (sh(wsh(pk)), wsh(pk), pk, k[:1]),
+        "multi23": (ms(2, k), b"", b"", k), "sh(multi23)": (sh(ms(2, k)), ms(2, k), b"", k),
+        "wsh(multi23)": (wsh(ms(2, k)), b"", ms(2, k), k),
+        "sh(wsh(multi12))": (sh(wsh(ms(1, k[:2]))), wsh(ms(1, k[:2])), ms(1, k[:2]), k[:2]),
+        "multi11": (ms(1, k[:1]), b"", b"", k[:1]), "wsh(multi33)": (wsh(ms(3, k)), b"", ms(3, k), k),
+    }
+    return table[shape]
+
+
+def _raw_psbt(inputs, n_out):
+    from btclib.bip32 import BIP32KeyOrigin
+    ins, prevs = [], []
+    for i, (shape_i, comp, k0) in enumerate(inputs):
+        spk, redeem, ws, keys = _raw_input(RAW_SHAPES[shape_i], bool(comp), k0)
+        prev = Tx(vin=[TxIn(OutPoint(bytes([i + 1]) * 32, i))], vout=[TxOut(100_000 + i, spk, check_validity=False)],
+                  check_validity=False)
+        hd = {key: BIP32KeyOrigin("deadbeef", f"m/{i}/{j}") for j, key in enumerate(keys)}
+        ins.append(PsbtIn(non_witness_utxo=prev, previous_tx_id=prev.id, output_index=0, redeem_script=redeem,
+                          witness_script=ws, hd_key_paths=hd))
+        prevs.append(prev.vout[0])
+    outs = [PsbtOut(amount=1000 + j, script_pub_key=PAY.script) for j in range(n_out)]
+    return Psbt(2, ins, outs, 0, {}, fallback_lock_time=0), prevs
+
+
+def _o_estimate_raw(w):
+    """estimate ≥ actual for every signable script shape × key compression: keys given raw (hd_key_paths names
+    them, as an updater does), signed through `psbt.sign` with a KeyManager, finalized, extracted, run under the
+    library's own engine; signatures padded to the 72-byte worst case."""
+    from btclib.psbt.psbt import extract_tx, finalize, sign
+    from btclib.script.engine import verify_transaction
+    psbt, prevs = _raw_psbt(w["inputs"], w["n_out"])
+    est_w, est_v = psbt.estimated_weight, psbt.estimated_vsize
+    signed, _ = sign(psbt, _RawKeys())
+    tx = extract_tx(finalize(signed))
+    verify_transaction(prevs, tx)
+    worst = _with_worst_case_sigs(tx).weight
+    ok = est_w >= worst >= tx.weight and est_v >= tx.vsize
+    names = [RAW_SHAPES[s] + ("" if c else "/uncompressed") for s, c, _ in w["inputs"]]
+    return ok, f"{names} est={est_w} actual={tx.weight} worst-case-sigs={worst}"
+
+
 def _o_estimate(w):
     """Psbt.estimated_weight / estimated_vsize of the unsigned psbt never below what the library's own
     signer + finalizer + extractor produce; input i spends TEMPLATES[t] at address index k."""
@@ -709,6 +802,7 @@ ORACLES = {
     "size.tx": _o_size_tx,
     "size.block": _o_size_block,
     "psbt.estimate": _o_estimate,
+    "psbt.estimate_raw": _o_estimate_raw,
     "amount.roundtrip": _o_amount_roundtrip,
     "amount.spelling": _o_amount_spelling,
     "amount.glue": _o_amount_glue,
@@ -1059,6 +1153,7 @@ ORACLES["sigops.tx"] = _o_sigops_tx
 
 def _run_psize(ctx):
     """the psbt_size model against the real estimated_input_sizes / placeholder weight, and sig_op_count."""
+    from btclib.hashes import hash160
     from btclib.psbt.psbt_out import PsbtOut as _PsbtOut
     rng = ctx.rng
     lines = []
@@ -1072,8 +1167,20 @@ def _run_psize(ctx):
         psbt = d.update_psbt_input(psbt, 0, k)
         lines.append(_psize_line(rng, psbt.inputs[0], spk))
         ctx.count("psize.template", TEMPLATES[t])
+    # raw-key shapes in both compressions (pkh inside sh / wsh / sh-wsh included), key named by the psbt or not
+    for _ in range(ctx.n(300, 4000)):
+        sh_i, comp = rng.randrange(len(RAW_SHAPES)), rng.choice([0, 0, 1])
+        psbt, _prevs = _raw_psbt([[sh_i, comp, rng.randrange(60)]], 1)
+        pin = psbt.inputs[0]
+        spk = pin.non_witness_utxo.vout[0].script_pub_key.script
+        line = _psize_line(rng, pin, spk) if rng.random() < 0.4 else None
+        if line is None:
+            keys = list(pin.hd_key_paths) if rng.random() < 0.8 else []
+            ktok = ",".join(f"{k.hex()}:{hash160(k).hex()}" for k in keys) or "-"
+            line = f"psize.input {hx(spk)} {hx(pin.redeem_script)} {hx(pin.witness_script)} {ktok} None 0 _ - None"
+        lines.append(line)
+        ctx.count("psize.raw", RAW_SHAPES[sh_i] + ("" if comp else "/uncompressed"))
     # an uncompressed p2pkh key, known and unknown to the psbt
-    from btclib.hashes import hash160
     unc = bytes.fromhex("04" + KEY[2:]) + bytes.fromhex(
         "1ae168fea63dc339a3c58419466ceaeef7f632653266d0e1236431a950cfe52a")
     spk = ScriptPubKey.p2pkh(unc).script
@@ -1122,6 +1229,14 @@ def _run_estimate(ctx):
         n = rng.choice([1, 2, 3, 5])
         ins = [[rng.randrange(len(TEMPLATES)), rng.randrange(200), rng.choice([0, 0, 1])] for _ in range(n)]
         ctx.check("psbt.estimate", {"inputs": ins, "n_out": rng.choice([1, 2, 3])})
+    # every shape × {compressed, uncompressed} alone, then mixes
+    for sh_i in range(len(RAW_SHAPES)):
+        for comp in (1, 0):
+            ctx.check("psbt.estimate_raw", {"inputs": [[sh_i, comp, rng.randrange(60)]], "n_out": 1})
+            ctx.count("estimate.raw", RAW_SHAPES[sh_i] + ("" if comp else "/uncompressed"))
+    for _ in range(ctx.n(150, 3000)):
+        ins = [[rng.randrange(len(RAW_SHAPES)), rng.choice([0, 1]), rng.randrange(60)] for _ in range(rng.choice([1, 2, 3, 4]))]
+        ctx.check("psbt.estimate_raw", {"inputs": ins, "n_out": rng.choice([1, 2])})
 
 
 def run(ctx):
